@@ -14,6 +14,7 @@ EXPLANATION = (
     "contents depends on query exactness (C05) and is not decided.")
 EXPLANATION += " Also decided: every Ok return of vanish lies behind the Ok outcome of both queries; deindex deletes, under the same conditions, every entry index_event puts."
 EXPLANATION += ' Also decided: in every caller, Ok-outcomes of deindex and deindex_id alternate on every path to Ok and address the same event.'
+EXPLANATION += " Also decided: the query's screen wrapper, through which vanish enumerates its targets, turns an event down only for the caller's Mismatch / Redacted."
 ASSUMPTIONS = []
 
 
